@@ -49,7 +49,7 @@ def contraints_check(
             )
         X = function_logger.variable_transformer.inverse_transf(U_new)
         C = non_box_cons(X)
-        idx = C <= 0
+        idx = np.asarray(C).reshape(-1) <= 0  # accept a column vector (N, 1) as well as (N,)
         U_new = U_new[idx]
 
     return U_new
